@@ -8,4 +8,7 @@ sys.path.insert(0, ".")
 from harness.common import ensure_built
 decls = ensure_built(force=True)
 print("built;", sum(1 for d in decls.values() if d["kind"] == "theorem"), "property theorems audited")
+from harness.common import ensure_gen
+gen = ensure_gen()
+print("translated from /repo:", ", ".join(f"{fn} ({'tie checked' if st['ok'] else st['stage'] + ' BROKEN'})" for fn, st in gen.items()))
 P
